@@ -170,14 +170,15 @@ def install2(R):
     R.prop_meta["C06"] = dict(
         bounded_in_quick="crop route against the direct route on the real code: replay/C06.py (Runner: grids, shuffle, sow-time constants, internal dimensions, resources, "
                          "attributes, last_ds; Harvester: three overwrite policies, engines joblib and h5netcdf, accumulated dataset in memory and on disk against a direct "
-                         "harvest; Sampler: rows appended, last_df; each also with the crop and its farmer reloaded by name between sow, grow and reap)",
+                         "harvest; Sampler: rows appended, last_df; each also with the crop and its farmer reloaded by name between sow, grow and reap; one runner used for several crops "
+                         "in a row, with constants given to an earlier sowing and another grid sown first)",
         not_decided=["reload of crop and farmer by name (pickled farmer without its function, function re-attached): bounded replay only",
                      "equality of the final datasets is by congruence from equal builder inputs (C03 proves the builder's output is determined by them)"],
         assumptions=["pickle / cloudpickle round trip; xarray / pandas builders"],
     )
     R.prop_meta["C15"] = dict(
         bounded_in_quick="sampling histories on the real code: replay/C15.py (sequences of sample_combos and sow_samples/grow/reap with varying n, combos overrides, "
-                         "constants, engines pickle and csv, fresh Sampler objects between runs): exactly n rows appended, earlier rows unchanged, argument values "
+                         "constants given with the sowing over constants stored on the runner, engines pickle and csv, fresh Sampler objects between runs): exactly n rows appended, earlier rows unchanged, argument values "
                          "from the allowed choices, output columns = function at those arguments, disk == memory, a new Sampler continues from the file",
         not_decided=["pandas: concat(ignore_index, sort) appends rows, to_<engine>/read_<engine> round trip (csv changes dtypes) -- assumed / bounded replay only",
                      "numpy.random.choice returns an element of its argument (assumed)",
